@@ -18,6 +18,13 @@ fn gen_of<T: Modelled>(rng: &mut Rng) -> T {
 	T::from_val(&g.val(&T::ty()))
 }
 
+/// two equal values built independently from one generated model value
+fn gen_pair<T: Modelled>(rng: &mut Rng) -> (T, T) {
+	let mut g = monitor::gen::Gen::small(rng);
+	let v = g.val(&T::ty());
+	(T::from_val(&v), T::from_val(&v))
+}
+
 fn differ(rep: &mut Report, sig: &str, what: String, got: &[u8], want: &[u8], history: &str) {
 	rep.violation(
 		sig,
@@ -1248,6 +1255,23 @@ pub fn c16(ctx: &Ctx) {
 		let d3: SGeneric<u16> = gen_of(&mut rng);
 		like_dec("derived generic self", &d3, &d3, &mut rep);
 		like_dec("&derived ~ derived", &&d1, &d1, &mut rep);
+		// derived repr(transparent) newtypes behind the pointer aliases (in-place decoding paths)
+		macro_rules! transparent_families {
+			($($t:ty),*) => {$({
+				let (a, b): ($t, $t) = gen_pair(&mut rng);
+				like_dec(concat!(stringify!($t), " ~ Box<T>"), &a, &Box::new(b), &mut rep);
+				let (a, b): ($t, $t) = gen_pair(&mut rng);
+				like_dec(concat!(stringify!($t), " ~ Rc<T>"), &a, &Rc::new(b), &mut rep);
+				let (a, b): ($t, $t) = gen_pair(&mut rng);
+				like_dec(concat!(stringify!($t), " ~ Arc<T>"), &a, &Arc::new(b), &mut rep);
+				let (a, b): ($t, $t) = gen_pair(&mut rng);
+				like_dec(concat!("Box<", stringify!($t), "> ~ T"), &Box::new(a), &b, &mut rep);
+				let (a, b): ([$t; 2], [$t; 2]) = gen_pair(&mut rng);
+				let refs: [&$t; 2] = [&a[0], &a[1]];
+				like_dec(concat!("[&", stringify!($t), "; 2] ~ [T; 2]"), &refs, &b, &mut rep);
+			})*}
+		}
+		transparent_families!(TNewtype, TNewtypeZ, TCompact, TEncAs, TSkip, TCompactZ, TEncAsZ, TOnlyFirst, TOnlyLast, SSingle, SCompact);
 		// nested composition of declarations
 		let nested_a: Vec<(&u32, Box<String>)> = vec![(&x, Box::new(s.clone()))];
 		let nested_b: Vec<(u32, String)> = vec![(x, s.clone())];
